@@ -3,7 +3,7 @@ cond fields, the Thumb conditional branch and IT-block conditions; (b) every con
 alphabet x all (cond, NZCV): a failing condition is a no-op apart from PC / ITSTATE, a passing one equals the
 unconditional execution (differential oracle, no model)."""
 from ..runner import Result
-from .. import machine, isa
+from .. import machine, isa, sweep, lazyword
 from ..ref import bv
 
 ID = "C05"
@@ -17,6 +17,15 @@ def plan(tier):
     for i in range(NSHARD):
         shards.append(("arm", i))
         shards.append(("thumb", i))
+    # every conditional ENCODING, not only the harvested ones: all 2^16 Thumb halfwords in an IT block, and every leaf
+    # of the lazy-word partition of ARM (cond field fixed to EQ, rewritten per variant) and Thumb-32 decode
+    for blk in range(32):
+        shards.append(("t16all", blk))
+    cap = 8 if tier == "quick" else 12
+    for cube in sweep.arm_shards():
+        shards.append(("a32leaves", (cube[0] | 0xF0000000, cube[1]), cap, tier))
+    for cube in sweep.thumb32_shards():
+        shards.append(("t32leaves", cube, cap, tier))
     return {
         "shards": shards,
         "rule": "for every harvested instruction word with a condition (ARM cond field 0..14; Thumb instruction as the "
@@ -25,10 +34,16 @@ def plan(tier):
                 "ITSTATE advanced} (fail); state = (word, cond, NZCV)",
         "bounds": {"arm_words": len(arm), "thumb_words": len(thumb), "conds": "0..14", "nzcv": "0..15",
                    "operands": "as harvested from the test-suite plus every single-bit flip of the word that stays in the same encoding class (those under conds {EQ,NE} x NZCV {0000,0100}); registers pointing into RAM",
+                   "all_encodings": "all 2^16 Thumb halfwords as the single instruction of an IT block; every decode leaf of the "
+                                    "ARM and Thumb-32 spaces (lazy-word partition, wide cap %d) with the free bits set to "
+                                    "{all-0, all-1%s}; conds {EQ,NE} x NZCV {0000,0100} (each cond fails once and passes once)" % (
+                                        cap, "" if tier == "quick" else ", 0101.., 1010.."),
                    "excluded": "instances whose AL execution is UNDEFINED (IMPLEMENTATION DEFINED when the condition "
                                "fails) or that from_bitarray rejects as UNPREDICTABLE in that context"},
         "exhaustive": True,
-        "assumptions": ["operand values are one tuple per encoding (the harvested word in a fixed register file)"],
+        "assumptions": ["register values are one file per run (registers pointing into RAM); operand FIELDS are covered per "
+                        "decode leaf by pattern members, not every word of the leaf is stepped"],
+        "deadline_s": 170 if tier == "quick" else 1500,
     }
 
 
@@ -85,10 +100,58 @@ def class_of(cpu, word, thumb, olen, it):
         return None
 
 
+def all16(res, cpu, plan, base, blk):
+    for w in range(blk * 2048, (blk + 1) * 2048):
+        if (w >> 11) in (0b11101, 0b11110, 0b11111):
+            continue
+        cname = class_of(cpu, w, True, 16, 0x08)
+        if cname is None:
+            res.outcome("undefined-skipped")
+            continue
+        check_word(res, cpu, plan, base, w, True, 16, cname, (0, 1), (0b0000, 0b0100))
+    res.sample({"thumb16_block": [hex(blk * 2048), hex((blk + 1) * 2048 - 1)]})
+
+
+def leaves32(res, cpu, plan, base, kind, cube, cap, tier):
+    thumb = kind == "t32leaves"
+    it = 0x08 if thumb else 0
+    f = sweep.decode_fn(cpu, 1 if thumb else 0, 32, it)
+    leaves = []
+
+    def on_leaf(mask, val, r, exc):
+        if exc is None and r != "UNDEFINED" and not r.endswith(":unpredictable"):
+            leaves.append((mask, val, r))
+    plan.restore(base)
+    t = lazyword.explore(f, 32, cube[0], cube[1], on_leaf, wide_cap=cap)
+    res.count("leaves", t.leaves)
+    res.count("words_in_leaves", t.words)
+    res.count("words_outside_cap", t.capped_words)
+    full = 0xFFFFFFFF
+    for mask, val, cname in leaves:
+        fm = full & ~mask
+        mem = [val, val | fm]
+        if tier != "quick":
+            mem += [val | (fm & 0x55555555), val | (fm & 0xAAAAAAAA)]
+        done = set()
+        for w in mem:
+            if w in done:
+                continue
+            done.add(w)
+            res.count("leaf_members")
+            check_word(res, cpu, plan, base, w, thumb, 32, cname, (0, 1), (0b0000, 0b0100))
+    res.sample({"cube": [hex(cube[0]), hex(cube[1])], "conditional_leaves": len(leaves)})
+
+
 def run_shard(arg):
-    kind, idx = arg
+    kind, idx = arg[0], arg[1]
     res = Result()
     cpu, plan, base = isa.std_cpu()
+    if kind == "t16all":
+        all16(res, cpu, plan, base, idx)
+        return res.as_dict()
+    if kind in ("a32leaves", "t32leaves"):
+        leaves32(res, cpu, plan, base, kind, arg[1], arg[2], arg[3])
+        return res.as_dict()
     if kind == "table":
         table(res, cpu, plan, base)
         return res.as_dict()
